@@ -140,7 +140,8 @@ Neighbors find_neighbors_bruteforce_impl(const RandomAccessIterator& begin, cons
         for (typename Distances::const_iterator neighbors_iter = distances.begin();
              neighbors_iter != distances.begin() + k + 1; ++neighbors_iter)
         {
-            if (neighbors_iter->first != iter)
+            // the query itself may be missing among the k+1 closest if it has more than k exact duplicates
+            if (neighbors_iter->first != iter && local_neighbors.size() < static_cast<size_t>(k))
                 local_neighbors.push_back(neighbors_iter->first - begin);
         }
         neighbors.push_back(local_neighbors);
@@ -164,6 +165,10 @@ Neighbors find_neighbors_vptree_impl(const RandomAccessIterator& begin, const Ra
         LocalNeighbors local_neighbors = tree.search(i, k + 1);
         auto it = std::remove(local_neighbors.begin(), local_neighbors.end(), i - begin);
         local_neighbors.erase(it, local_neighbors.end());
+        // the query itself may be missing among the k+1 closest if it has more than k exact duplicates,
+        // results are ordered from the farthest to the closest
+        if (local_neighbors.size() > static_cast<size_t>(k))
+            local_neighbors.erase(local_neighbors.begin());
         neighbors.push_back(local_neighbors);
     }
 
